@@ -22,12 +22,9 @@ pub struct Table {
 }
 
 impl Table {
-    pub fn new(vars: Vec<VarId>, tuples: Vec<Vec<Val>>) -> Self {
-        // Validate that all tuples have the same arity as variables
-        debug_assert!(
-            tuples.iter().all(|tuple| tuple.len() == vars.len()),
-            "All tuples must have the same arity as the number of variables"
-        );
+    pub fn new(vars: Vec<VarId>, mut tuples: Vec<Vec<Val>>) -> Self {
+        // A tuple of another arity can never match the variables
+        tuples.retain(|tuple| tuple.len() == vars.len());
         
         Self { vars, tuples }
     }
